@@ -17,7 +17,7 @@ from core.wire import atom, line
 from props.c33 import Rig, exc_name, reply_vals, wire_op
 
 ID = "C35"
-LEAN_TARGETS = ["TornadoModel.C35.Props"]
+LEAN_TARGETS = ["TornadoModel.C35.Props", "TornadoModel.C35.DeliverProps"]
 _T = "TornadoModel.C35."
 THEOREMS = [_T + n for n in (
     "inv_after", "disc_after", "maxsize_after", "conservation", "conservation_count", "size_le_maxsize",
@@ -29,6 +29,9 @@ THEOREMS = [_T + n for n in (
     "multi_size_le_maxsize", "multi_order_fifo", "multi_order_lifo", "multi_order_prio", "multi_no_assertion",
     "multi_finished_iff", "multi_unfinished_eq", "multi_task_done", "multi_join_iff", "multi_refines_spec",
     "multi_refines_spec_state",
+)] + [_T + n for n in (
+    # the ghost list `delivered` is exactly what get callers receive in the output trace (Deliver.lean, DeliverProps.lean)
+    "step_deliver", "run_deliver", "delivered_eq_got", "conservation_outputs", "order_fifo_outputs",
 )]
 TRUSTED = [
     "heapq: heappop returns a minimum, heappush/heappop preserve the multiset (the model keeps the heap's content as a sorted list)",
@@ -52,7 +55,7 @@ RULE = ("op sequences (<=25 ops, <=10 futures) over Queue/LifoQueue/PriorityQueu
         "blocked getter or putter was later served and some blocked waiter timed out or was cancelled; distinct by canonical JSON")
 EXHAUSTIVE = {"quick": True, "thorough": True}
 CLAUSES = {
-    "every successfully put item is returned by exactly one get or remains queued": "conservation + conservation_count (history variables tied by wrapping _put/_get); multi_conservation (also between the calls of one loop iteration)",
+    "every successfully put item is returned by exactly one get or remains queued": "conservation_outputs (accepted is a permutation of [items handed to get callers in the OUTPUT trace: gotItems] ++ queue) via delivered_eq_got: the ghost list `delivered` equals, in order, the values get futures are resolved with / get_nowait returns (step_deliver: every op appends to `delivered` exactly what its output emits; no item is dropped by future_set_result_unless_cancelled because _consume_expired leaves a live getter at the head); conservation + conservation_count are the same statement on the ghost. `accepted` is still a history variable (tied by wrapping _put). multi_conservation (between the calls of one loop iteration) is on the ghost only: the output link is not proved for the multi-call layer (tie + oracle, which counts the get results the implementation actually produced)",
     "items come out in the queue's order": "order_fifo + order_lifo + order_prio; multi_order_fifo + multi_order_lifo + multi_order_prio",
     "the queue never holds more than maxsize items": "size_le_maxsize (op boundaries); multi_size_le_maxsize (after every call inside an iteration)",
     "blocked getters and putters are served in arrival order": "getters_fifo + putters_fifo (first live entry of the append-only deque) + waiters_consistent + no_assertion; end-to-end: refines_spec (trace equality with the sequential Spec whose wait lists are FIFO)",
